@@ -107,7 +107,12 @@ fn query(doc: &xml_dom::XmlDocument, q: &str, ns: &[(String, String)]) -> String
     let r = panics::catch(|| {
         let mut ctx = xml_xpath::eval::model::Context::default();
         for (p, u) in ns {
-            ctx.add_ns(Some(p.as_str()), u.as_str());
+            // an empty prefix stands for the caller's default namespace (xq/xe: --setns xmlns=URI)
+            if p.is_empty() {
+                ctx.add_ns(None, u.as_str());
+            } else {
+                ctx.add_ns(Some(p.as_str()), u.as_str());
+            }
         }
         xml_xpath::query(doc.clone(), q, &mut ctx).map(|v| format!("{}", v)).map_err(|e| format!("error:{:?}", e))
     });
@@ -128,7 +133,7 @@ impl Property for C10 {
          rendered twice: as generated and with every prefix renamed consistently. Oracle: own scope computation on the abstract document. Direct: in_scope_namespace() of every \
          element as a set of (prefix, URI) incl. xml, as_expanded_name() of every element and attribute. Through XPath with fresh caller prefixes, and again with the document's own prefixes bound by the caller to other URIs: local-name(), namespace-uri(), \
          name() of every element addressed by a positional path, count(//P:l), count(//@P:l), count(//P:*), count(//l) for every expanded name in the document against the model's \
-         counts. Metamorphic: the renamed document gives the same answers to the same queries. Non-trivial = the document has shadowing, an undeclaration or a prefixed attribute \
+         counts. With a caller default namespace (the extension behind --setns xmlns=URI) unprefixed element tests count the elements of that namespace, unprefixed attribute tests and function names are unaffected. Metamorphic: the renamed document gives the same answers to the same queries. Non-trivial = the document has shadowing, an undeclaration or a prefixed attribute \
          and at least one count is non-zero; distinct by text."
             .into()
     }
@@ -352,6 +357,33 @@ impl Property for C10 {
             }
             if set_name != "fresh" {
                 obs.label("caller-reuses-document-prefixes");
+            }
+        }
+        // A caller default namespace (the library's extension behind `--setns xmlns=URI`): it applies to unprefixed
+        // ELEMENT name tests only; unprefixed attribute tests and function names stay what they are.
+        if let Some(d) = uris.first() {
+            let mut with_default = ns.clone();
+            with_default.push((String::new(), d.clone()));
+            let in_default = elem_counts.iter().filter(|((u, _), _)| u.as_deref() == Some(d.as_str())).map(|((_, l), n)| (l.clone(), *n)).collect::<Vec<_>>();
+            let mut probes: Vec<(String, usize)> = vec![];
+            for (l, n) in in_default.iter().take(3) {
+                probes.push((format!("count(//{})", l), *n));
+            }
+            for ((u, l), n) in attr_counts.iter().take(4) {
+                if u.is_none() {
+                    probes.push((format!("count(//@{})", l), *n));
+                }
+            }
+            for (q, n) in probes {
+                let got = query(&doc, &q, &with_default);
+                if got != n.to_string() {
+                    let class = if q.contains('@') { "attribute-name-test" } else { "element-name-test" };
+                    fail!(
+                        format!("c10.xpath.{}.caller-default-namespace", class),
+                        format!("{} = {} with the caller's default namespace {:?}, expected {} (bindings {:?})", q, got, d, n, with_default)
+                    );
+                }
+                obs.label("caller-default-namespace");
             }
         }
         if !nonzero {
